@@ -608,6 +608,7 @@ Section Corr.
     | RSig SigBreak sst', YBrk y' => exists X, Rel3 Sall E' (F ++ X) sst' y' /\ frame E sst sst'
     | RSig SigContinue sst', YCnt y' => exists X, Rel3 Sall E' (F ++ X) sst' y' /\ frame E sst sst'
     | RSig (SigReturn vs) sst', YRet vy y' =>
+        ce_mode E = MFun /\
         exists X, vrel (F ++ X) vs vy /\ Rel3 Sall E' (F ++ X) sst' y' /\ frame E sst sst'
     | RErr k _, YErr k' => k' = k
     | RFault f _, YFault f' => f' = f
@@ -647,7 +648,7 @@ Section CorrLemmas.
       exact (frame_trans _ _ _ _ Hf Fr).
     - destruct H as [X' [R Fr]]. exists (X ++ X'). rewrite app_assoc. split; [exact R|exact (frame_trans _ _ _ _ Hf Fr)].
     - destruct H as [X' [R Fr]]. exists (X ++ X'). rewrite app_assoc. split; [exact R|exact (frame_trans _ _ _ _ Hf Fr)].
-    - destruct H as [X' [V [R Fr]]]. exists (X ++ X'). rewrite app_assoc. split; [exact V|]. split; [exact R|].
+    - destruct H as [Hmd [X' [V [R Fr]]]]. split; [exact Hmd|]. exists (X ++ X'). rewrite app_assoc. split; [exact V|]. split; [exact R|].
       exact (frame_trans _ _ _ _ Hf Fr).
   Qed.
 
@@ -1164,7 +1165,7 @@ Section SemSim.
       exact (Rel3_restrict Sall E E' _ _ _ R Hext HL S1 S2 S3).
     - destruct H as [X [R Fr]]. exists X. split; [|exact Fr]. exact (Rel3_restrict Sall E E' _ _ _ R Hext HL S1 S2 S3).
     - destruct H as [X [R Fr]]. exists X. split; [|exact Fr]. exact (Rel3_restrict Sall E E' _ _ _ R Hext HL S1 S2 S3).
-    - destruct H as [X [V [R Fr]]]. exists X. split; [exact V|]. split; [|exact Fr].
+    - destruct H as [Hmd [X [V [R Fr]]]]. split; [exact Hmd|]. exists X. split; [exact V|]. split; [|exact Fr].
       exact (Rel3_restrict Sall E E' _ _ _ R Hext HL S1 S2 S3).
   Qed.
 
@@ -1592,14 +1593,14 @@ Section SemSim.
   Proof. reflexivity. Qed.
 
   (* the closure of Sem and the table entry of a literal written where c1 / st1 describe the declarations *)
-  Lemma fun_clo : forall E F sst y fa fn c1 st1 ps body st4, ctx_ok st1 c1 E -> flags_ok fa fn E -> fa = true ->
-    Rel3 Sall E F sst y -> c_block_statement body (fun_st3 ps st1) = Ok st4 -> f3b false true true body = true ->
+  Lemma fun_clo : forall E fa fn c1 st1 ps body st4, ctx_ok st1 c1 E -> flags_ok fa fn E -> fa = true ->
+    c_block_statement body (fun_st3 ps st1) = Ok st4 -> f3b false true true body = true ->
     holes_gen E (fun y => mentions_b y body) ->
     clo_rel (ce_ds E) (ce_L E) (ce_gh E)
             (mkClo ps body (match d_global c1 with Some g => g | None => d_local c1 end))
             (mkFE (code_len (fun_st3 ps st1)) (Z.of_nat (snd (leave_context (c_symbols st4)))) ps body (fun_st3 ps st1)).
   Proof.
-    intros E F sst y fa fn c1 st1 ps body st4 Hctx Hfl Hfa HR H4 HFb [Hhg _].
+    intros E fa fn c1 st1 ps body st4 Hctx Hfl Hfa H4 HFb [Hhg _].
     split; [reflexivity|]. split; [reflexivity|]. split; [exact HFb|].
     cbn [fe_st fe_ps fe_body fe_n k_genv]. unfold ctx_ok in Hctx. unfold flags_ok in Hfl.
     destruct (ce_mode E) eqn:Em.
@@ -1647,7 +1648,7 @@ Section SemSim.
     set (clo := mkClo ps body (match d_global c with Some g => g | None => d_local c end)).
     assert (Sall fe) as HS by (apply Hocc; exact (oc_here [] ps body st st4 H4)).
     assert (clo_rel (ce_ds E) (ce_L E) (ce_gh E) clo fe) as HC.
-    { apply (fun_clo E F sst y fa fn c st ps body st4 Hctx Hfl Hfa HR H4 HFb).
+    { apply (fun_clo E fa fn c st ps body st4 Hctx Hfl Hfa H4 HFb).
       apply (holes_gen_sub E _ _) with (2 := Hh). intros y0 Hm. rewrite mentions_function in Hm. exact Hm. }
     cbn [corr]. exists [fe]. split.
     - cbn [vrel]. split; [apply zlength_nonneg|]. exists fe. split; [|reflexivity].
@@ -1834,5 +1835,521 @@ Section SemSim.
       + intros c Hin. specialize (R7 c Hin). lia.
     - split; [congruence|]. split; [lia|]. intros c Hc Hnin. apply Hkeep; [exact Hc|].
       intros Hin. apply Hnin. rewrite map_app. apply in_or_app. left. exact Hin.
+  Qed.
+
+  (* the arguments of a call *)
+  Definition corr_a (E : cenv) (F : list fentry) (sst : sstate) (r : res (list val)) (x : yres (list val)) : Prop :=
+    match r, x with
+    | RFuel, _ => True
+    | RErr EArgumentError _, _ => True
+    | _, YExcl => True
+    | ROk vs sst', YOk vs' y' => exists X, Forall2 (vrel (F ++ X)) vs vs' /\ Rel3 Sall E (F ++ X) sst' y' /\ frame E sst sst'
+    | RSig SigBreak sst', YBrk y' => exists X, Rel3 Sall E (F ++ X) sst' y' /\ frame E sst sst'
+    | RSig SigContinue sst', YCnt y' => exists X, Rel3 Sall E (F ++ X) sst' y' /\ frame E sst sst'
+    | RSig (SigReturn v) sst', YRet v' y' =>
+        ce_mode E = MFun /\
+        exists X, vrel (F ++ X) v v' /\ Rel3 Sall E (F ++ X) sst' y' /\ frame E sst sst'
+    | RErr k _, YErr k' => k' = k
+    | RFault f _, YFault f' => f' = f
+    | _, _ => False
+    end.
+
+  Lemma Forall2_vrel_mono : forall F X vs vs', Forall2 (vrel F) vs vs' -> Forall2 (vrel (F ++ X)) vs vs'.
+  Proof. intros F X vs vs' H. induction H; constructor; [apply vrel_mono; assumption|assumption]. Qed.
+
+  Lemma args_corr : forall f, P_e f -> forall args fa fn c st st1 E F sst y,
+    f3es fa fn args = true -> CompilerNames.compile_exprs args st = Ok st1 ->
+    ctx_ok st c E -> flags_ok fa fn E -> Rel3 Sall E F sst y -> locb E st1 ->
+    holes_gen E (fun y => mentions_es y args) -> (forall fe, occ_es args st fe -> Sall fe) ->
+    corr_a E F sst (sem_list orc f c args sst) (yargs orc f st args y).
+  Proof.
+    intros f IHe. induction args as [|a r IH]; intros fa fn c st st1 E F sst y HF Hc Hctx Hfl HR Hloc Hh Hocc.
+    - rewrite sl_nil, ya_nil. cbn [corr_a]. exists []. rewrite app_nil_r. split; [constructor|]. split; [exact HR|apply frame_refl].
+    - rewrite f3es_cons in HF. apply andb_prop in HF. destruct HF as [HFa HFr].
+      cbn [CompilerNames.compile_exprs] in Hc. bok Hc sta Ha.
+      destruct (ctx_ok_expr a false fa fn st sta c E HFa Ha Hctx) as [Hctxa Hka].
+      assert (cmax sta <= cmax st1)%nat as Hk1.
+      { destruct (ctx_ok_wfshape sta c E Hctxa) as [pre [sc [k [outer [cur [W _]]]]]].
+        destruct (shape_exprs r fa fn sta st1 pre sc k outer cur HFr Hc W) as [k' [W' Hk]].
+        rewrite (cmax_ltab _ _ _ _ _ _ (proj1 W)), (cmax_ltab _ _ _ _ _ _ (proj1 W')). exact Hk. }
+      rewrite sl_cons, ya_cons, Ha.
+      assert (corr Sall E E F sst (eval_expr orc f c a sst) (yeval orc f st a y)) as Ca.
+      { apply (IHe false fa fn a c st sta E F sst y HFa Ha Hctx Hfl HR).
+        - intros Em. specialize (Hloc Em). lia.
+        - apply (holes_gen_sub E _ _) with (2 := Hh). intros y0 Hm. cbn [mentions_es] in Hm. exact (orb_false_l _ _ Hm).
+        - intros fe Ho. apply Hocc. apply oc_es_hd. exact Ho. }
+      destruct (eval_expr orc f c a sst) as [v s1|[| |rv] s1|k s1|x0 s1|];
+        destruct (yeval orc f st a y) as [v' y1|y1|y1|v' y1|k'|x'| |]; cbn [corr rbind ybind corr_a] in Ca |- *;
+        try contradiction; try exact I; try exact Ca;
+        try (destruct k; try contradiction; try exact I; exact Ca).
+      + destruct Ca as [X [V [R1 Fr1]]].
+        assert (corr_a E (F ++ X) s1 (sem_list orc f c r s1) (yargs orc f sta r y1)) as Cr.
+        { apply (IH fa fn c sta st1 E (F ++ X) s1 y1 HFr Hc Hctxa Hfl R1 Hloc).
+          - apply (holes_gen_sub E _ _) with (2 := Hh). intros y0 Hm. cbn [mentions_es] in Hm. exact (orb_false_r' _ _ Hm).
+          - intros fe Ho. apply Hocc. exact (oc_es_tl a r st sta fe Ha Ho). }
+        destruct (sem_list orc f c r s1) as [vs s2|[| |rv] s2|k s2|x0 s2|];
+          destruct (yargs orc f sta r y1) as [vs' y2|y2|y2|v2 y2|k'|x'| |]; cbn [corr_a rbind ybind] in Cr |- *;
+          try contradiction; try exact I;
+          try (destruct k; try contradiction; try exact I; exact Cr); try exact Cr.
+        * destruct Cr as [X2 [V2 [R2 Fr2]]]. exists (X ++ X2). rewrite app_assoc.
+          split; [constructor; [apply vrel_mono; exact V|exact V2]|]. split; [exact R2|exact (frame_trans _ _ _ _ Fr1 Fr2)].
+        * destruct Cr as [X2 [R2 Fr2]]. exists (X ++ X2). rewrite app_assoc. split; [exact R2|exact (frame_trans _ _ _ _ Fr1 Fr2)].
+        * destruct Cr as [X2 [R2 Fr2]]. exists (X ++ X2). rewrite app_assoc. split; [exact R2|exact (frame_trans _ _ _ _ Fr1 Fr2)].
+        * destruct Cr as [Hmd [X2 [V2 [R2 Fr2]]]]. split; [exact Hmd|]. exists (X ++ X2). rewrite app_assoc.
+          split; [exact V2|]. split; [exact R2|exact (frame_trans _ _ _ _ Fr1 Fr2)].
+      + destruct (sem_list orc f c r s1) as [vs s2|[| |rv] s2|k s2|x0 s2|]; try exact I. destruct k; exact I.
+  Qed.
+
+  Lemma find_fun_some : forall fe funs, In fe funs ->
+    exists fe', find_fun (fe_ip fe) funs = Some fe' /\ In fe' funs /\ fe_ip fe' = fe_ip fe.
+  Proof.
+    intros fe funs. induction funs as [|x l IH]; intros H; [destruct H|]. cbn [find_fun].
+    destruct (fe_ip x =? fe_ip fe) eqn:E.
+    - exists x. split; [reflexivity|]. split; [left; reflexivity|apply Z.eqb_eq; exact E].
+    - destruct H as [->|H]; [rewrite Z.eqb_refl in E; discriminate E|].
+      destruct (IH H) as [fe' [A [B C]]]. exists fe'. split; [exact A|]. split; [right; exact B|exact C].
+  Qed.
+
+  (* the body of a function: the table before and after *)
+  Lemma bs_ctx : forall b st st4 pre sc k outer cur, f3b false true true b = true -> c_block_statement b st = Ok st4 ->
+    wfshape st pre sc k outer cur ->
+    (k <= cmax st4)%nat /\
+    (b <> [] -> exists stb, compile_statements b (set_symbols st (enter_scope (c_symbols st))) = Ok stb /\ cmax stb = cmax st4).
+  Proof.
+    intros b st st4 pre sc k outer cur HF Hc [Ws [Wp Ww]]. unfold c_block_statement in Hc.
+    destruct b as [|s0 r]; cbn [is_nil] in Hc.
+    - inversion Hc; subst st4. split; [|intros N; contradiction].
+      unfold cmax. cbn [emit_opcode c_symbols]. fold (cmax st). rewrite (cmax_ltab st _ _ _ _ _ Ws). lia.
+    - apply bind_ok in Hc. destruct Hc as [stb [Hb Hc]]. inversion Hc; subst st4; clear Hc.
+      assert (wfshape (set_symbols st (enter_scope (c_symbols st))) pre sc k (outer ++ [cur]) []) as W0.
+      { split; [cbn [set_symbols c_symbols]; rewrite Ws; apply enter_ltab|]. split; [exact Wp|]. rewrite flat_enter. exact Ww. }
+      destruct (shape_stmts (s0 :: r) false true true _ stb pre sc k (outer ++ [cur]) [] HF Hb W0) as [kb [[Wb _] Hkb]].
+      assert (cmax (set_symbols stb (leave_scope (c_symbols stb))) = kb) as Ek.
+      { apply (cmax_ltab _ pre sc kb outer cur). cbn [set_symbols c_symbols]. rewrite Wb. cbn [app]. apply leave_ltab. }
+      rewrite Ek. split; [exact Hkb|]. intros _. exists stb. split; [exact Hb|]. exact (cmax_ltab stb _ _ _ _ _ Wb).
+  Qed.
+
+  (* the call itself: callee value and argument values are related *)
+  Lemma call_corr : forall f, P_l f -> forall E F sst y fv fv' vs vs',
+    Rel3 Sall E F sst y -> vrel F fv fv' -> Forall2 (vrel F) vs vs' ->
+    corr Sall E E F sst (sem_call orc f fv vs sst) (ycall orc f fv' vs' y).
+  Proof.
+    intros f IHl E F sst y fv fv' vs vs' HR Vf Vv. unfold sem_call, ycall, ycall_g.
+    destruct fv as [| | |id n0| | |]; cbn [vrel] in Vf; try contradiction;
+      try (destruct Vf as [-> _]; apply corr_err).
+    destruct Vf as [Hid [fe [Hfe ->]]].
+    destruct (r_clo _ _ _ _ _ HR _ fe Hfe) as [Hin [clo [Hclo HC]]]. rewrite Hclo.
+    destruct HC as [Cps [Cbody [CF3 [nf [c0 [mids [st4 [Cnf [Cg [Cs [Cp [Cfl [Cc [Cn Ch]]]]]]]]]]]]]].
+    destruct (Nat.ltb (length (k_params clo)) (length vs)) eqn:Ear; [apply corr_argerr|].
+    apply Nat.ltb_ge in Ear.
+    pose proof (F2_length _ _ _ _ _ Vv) as Lvs.
+    assert (wfshape (fe_st fe) (c0 :: mids) SLocal (length (fe_ps fe)) [] (fe_ps fe)) as Wfe.
+    { split; [exact Cs|]. split; [exact Cp|]. rewrite flat_nil. lia. }
+    destruct (bs_ctx (fe_body fe) (fe_st fe) st4 _ _ _ _ _ CF3 Cc Wfe) as [Hk4 Hb4].
+    rewrite Cps in Ear.
+    assert (fe_n fe <? zlength vs' = false) as ->.
+    { apply Z.ltb_ge. rewrite Cn. unfold zlength. lia. }
+    destruct (find_fun_some fe (y_funs y) Hin) as [fe' [Hff [Hin' Hip']]].
+    assert (fe' = fe) as -> by (apply Suniq; [exact (r_sall _ _ _ _ _ HR _ Hin')|exact (r_sall _ _ _ _ _ HR _ Hin)|exact Hip']).
+    rewrite Hff, Z.eqb_refl. cbn [negb].
+    destruct (sem_bind (k_params clo) vs [] sst) as [scope sst1] eqn:Eb.
+    rewrite Cps in Eb.
+    destruct (call_enter E F sst y (fe_ps fe) vs vs' (fe_n fe) nf sst1 HR Vv Ear ltac:(rewrite Cn; lia)
+                ltac:(rewrite Eb; reflexivity)) as [Hscope [HRc [Ho1 [Hn1 [Hf1 Hfresh]]]]].
+    rewrite Eb in Hscope. cbn [fst] in Hscope. subst scope.
+    set (dl := combine (fe_ps fe) (cells_from (st_next sst) (length (fe_ps fe)))) in *.
+    set (y0 := mkY (y_m y) (vs' ++ repeat_val VNull (Z.to_nat (fe_n fe - zlength vs'))) (y_funs y)) in *.
+    set (Ec := callee_env E nf dl (Z.to_nat (fe_n fe))) in *.
+    set (cc := mkD [rev dl] (Some (k_genv clo))).
+    rewrite Cbody.
+    (* the body *)
+    assert (exists E', env_ext Ec E' /\
+              corr Sall Ec E' F sst1 (exec_block orc f cc (fe_body fe) VNull sst1)
+                   (yblock_g (ystmts orc f) (fe_st fe) (fe_body fe) y0)) as [E' [Hext Hbody]].
+    { unfold yblock_g. destruct (fe_body fe) as [|s0 r0] eqn:Ebody; cbn [is_nil].
+      - exists Ec. split; [apply env_ext_refl|]. destruct f as [|f']; [apply corr_fuel|]. rewrite eb_nil, ys_nil. cbn [corr].
+        exists []. rewrite app_nil_r. split; [apply vrel_null|]. split; [exact HRc|apply frame_refl].
+      - destruct (Hb4 ltac:(discriminate)) as [stb [Hstb Hkb]].
+        assert (ctx_ok (set_symbols (fe_st fe) (enter_scope (c_symbols (fe_st fe)))) cc Ec) as Hctxc.
+        { unfold ctx_ok. cbn [Ec callee_env ce_mode ce_ds ce_dl ce_nf ce_L cc d_global d_local concat].
+          exists (k_genv clo), c0, mids, (length (fe_ps fe)), ([] ++ [fe_ps fe]), [].
+          split; [reflexivity|]. split; [apply app_nil_r|]. split; [exact Cg|]. split; [exact Cnf|].
+          split; [cbn [set_symbols c_symbols]; rewrite Cs; apply enter_ltab|]. split; [exact Cp|].
+          split; [rewrite flat_enter, flat_nil; unfold dl; symmetry; apply map_fst_combine; rewrite cells_from_length; reflexivity|].
+          split; [exact Cfl|]. rewrite flat_enter, flat_nil. lia. }
+        destruct (IHl false true true (s0 :: r0) cc _ stb Ec F sst1 y0 VNull VNull CF3 Hstb Hctxc) as [E' [Hext [_ Hc]]].
+        + split; reflexivity.
+        + exact HRc.
+        + intros _. cbn [Ec callee_env ce_N]. rewrite Hkb, Cn. lia.
+        + split.
+          * intros h y1 c1 Hin1 Hn1' Hm1. apply (Ch h y1 c1 Hin1); [apply Hm1; reflexivity|exact Hn1'].
+          * intros h y1 c1 [].
+        + intros fe1 Ho. apply (Sclosed fe (r_sall _ _ _ _ _ HR _ Hin)). rewrite Ebody. apply oc_blk. exact Ho.
+        + apply vrel_null.
+        + exists E'. split; [exact Hext|exact Hc]. }
+    pose proof (yblock_nosig orc f (fe_body fe) true true (fe_st fe) y0 CF3) as Nsb.
+    unfold yblock in Nsb.
+    destruct (exec_block orc f cc (fe_body fe) VNull sst1) as [v s2|[| |rv] s2|k s2|x0 s2|];
+      destruct (yblock_g (ystmts orc f) (fe_st fe) (fe_body fe) y0) as [v' y3|y3|y3|v' y3|k'|x'| |];
+      cbn [corr nosig] in Hbody, Nsb |- *; try contradiction; try exact I;
+      try (destruct k; try contradiction; try exact I; exact Hbody); try exact Hbody.
+    - destruct Hbody as [X [V [R3 Fr3]]].
+      assert (gc_clean y3 = true) as -> by (unfold gc_clean; rewrite (r_gc _ _ _ _ _ R3); reflexivity).
+      destruct (call_exit E E' F X sst sst1 s2 y y3 nf dl _ HR R3 Hext Fr3 Ho1 Hn1 Hf1 Hfresh) as [R4 Fr4].
+      cbn [corr]. exists X. split; [exact V|]. split; [exact R4|exact Fr4].
+    - destruct Hbody as [X [V [R3 Fr3]]].
+      destruct (call_exit E E' F X sst sst1 s2 y y3 nf dl _ HR R3 Hext Fr3 Ho1 Hn1 Hf1 Hfresh) as [R4 Fr4].
+      cbn [corr]. exists X. split; [exact V|]. split; [exact R4|exact Fr4].
+  Qed.
+
+  Lemma holes_call : forall E fn_ args, holes_e E (ECall fn_ args) ->
+    holes_e E fn_ /\ holes_gen E (fun y => mentions_es y args).
+  Proof.
+    intros E fn_ args H. split; apply (holes_gen_sub E _ _) with (2 := H); intros y Hm; rewrite mentions_call in Hm.
+    - exact (orb_false_l _ _ Hm).
+    - exact (orb_false_r' _ _ Hm).
+  Qed.
+
+  Lemma step_call : forall f, P_e f -> P_l f -> forall lp fa fn fn_ args c st st' E F sst y,
+    f3e lp fa fn (ECall fn_ args) = true -> compile_expression (ECall fn_ args) st = Ok st' ->
+    ctx_ok st c E -> flags_ok fa fn E -> Rel3 Sall E F sst y -> locb E st' -> holes_e E (ECall fn_ args) ->
+    (forall fe, occ_e (ECall fn_ args) st fe -> Sall fe) ->
+    corr Sall E E F sst (eval_expr orc (S f) c (ECall fn_ args) sst) (yeval orc (S f) st (ECall fn_ args) y).
+  Proof.
+    intros f IHe IHl lp fa fn fn_ args c st st' E F sst y HF Hc Hctx Hfl HR Hloc Hh Hocc.
+    rewrite f3e_call in HF. apply andb_prop in HF. destruct HF as [HF HFf]. apply andb_prop in HF.
+    destruct HF as [Hnb HFa]. apply negb_true_iff in Hnb. destruct (holes_call E fn_ args Hh) as [Hhf Hha].
+    rewrite CompilerNames.ce_call in Hc. bok Hc st1 H1.
+    assert (match fn_ with EIdent nm => assoc_text nm builtin_names | _ => None end = None) as Enb.
+    { destruct fn_; try reflexivity. cbn [is_builtin_callee] in Hnb. unfold is_builtin_name in Hnb.
+      destruct (assoc_text s builtin_names); [discriminate Hnb|reflexivity]. }
+    cbv zeta in Hc. rewrite Enb in Hc. bok Hc st2 H2. bok Hc n Hn. inversion Hc; subst st'; clear Hc.
+    assert (ctx_ok st1 c E /\ (cmax st <= cmax st1)%nat) as [Hctx1 Hk1].
+    { destruct (ctx_ok_wfshape st c E Hctx) as [pre [sc [k [outer [cur [W _]]]]]].
+      destruct (shape_exprs args fa fn st st1 pre sc k outer cur HFa H1 W) as [k' [W' Hk]].
+      exact (ctx_ok_shape st st1 c E (wfshape_same _ _ _ _ _ _ _ _ W W' Hk) Hctx). }
+    destruct (ctx_ok_expr fn_ false fa fn st1 st2 c E HFf H2 Hctx1) as [Hctx2 Hk2].
+    assert (cmax (emit_u8 n (emit_opcode OCall st2)) = cmax st2) as Hk' by reflexivity.
+    rewrite (ee_call orc f c fn_ args sst Hnb), ye_call, H1.
+    assert (corr_a E F sst (sem_list orc f c args sst) (yargs orc f st args y)) as Ca.
+    { apply (args_corr f IHe args fa fn c st st1 E F sst y HFa H1 Hctx Hfl HR); [|exact Hha|].
+      - intros Em. specialize (Hloc Em). lia.
+      - intros fe Ho. apply Hocc. apply oc_call_a. exact Ho. }
+    destruct (sem_list orc f c args sst) as [vs s1|[| |rv] s1|k s1|x0 s1|];
+      destruct (yargs orc f st args y) as [vs' y1|y1|y1|v1 y1|k'|x'| |]; cbn [corr_a rbind ybind corr] in Ca |- *;
+      try contradiction; try exact I; try exact Ca;
+      try (destruct k; try contradiction; try exact I; exact Ca).
+    - destruct Ca as [X [Vv [R1 Fr1]]]. apply (corr_shift Sall E E F X sst s1 _ _ Fr1). apply corr_bind.
+      + apply (IHe false fa fn fn_ c st1 st2 E (F ++ X) s1 y1 HFf H2 Hctx1 Hfl R1); [|exact Hhf|].
+        * intros Em. specialize (Hloc Em). lia.
+        * intros fe Ho. apply Hocc. exact (oc_call_f fn_ args st st1 fe H1 Ho).
+      + intros fv s2 fv' y2 X2 Vf R2 Fr2.
+        exact (call_corr f IHl E ((F ++ X) ++ X2) s2 y2 fv fv' vs vs' R2 Vf (Forall2_vrel_mono _ _ _ _ Vv)).
+    - destruct (rbind (eval_expr orc f c fn_ s1) (fun fv st0 => sem_call orc f fv vs st0)) as [a b|[| |q] b|e b|g b|]; try exact I.
+      destruct e; exact I.
+  Qed.
+
+  (** ** Statement lists *)
+
+  (* the declarations of E1 are those of E and new cells *)
+  Definition fresh_ext (E E1 : cenv) (sst : sstate) : Prop :=
+    forall c, In c (map snd (ce_ds E1 ++ ce_dl E1)) -> In c (map snd (ce_ds E ++ ce_dl E)) \/ (st_next sst <= c)%positive.
+
+  Lemma fresh_ext_refl : forall E sst, fresh_ext E E sst.
+  Proof. intros E sst c H. left. exact H. Qed.
+
+  Lemma corr_shift_ext : forall E E1 E2 F X sst sst1 r x, frame E sst sst1 -> fresh_ext E E1 sst ->
+    corr Sall E1 E2 (F ++ X) sst1 r x -> corr Sall E E2 F sst r x.
+  Proof.
+    intros E E1 E2 F X sst sst1 r x Hf Hx H.
+    destruct r as [vs s'|[| |rv] s'|k s'|f s'|]; destruct x as [vy y'|y'|y'|vy y'|k'|f'| |]; cbn [corr] in *;
+      try exact I; try contradiction; try exact H;
+      try (destruct k; try exact I; try contradiction; exact H).
+    - destruct H as [X' [V [R Fr]]]. exists (X ++ X'). rewrite app_assoc. split; [exact V|]. split; [exact R|].
+      exact (frame_ext _ _ _ _ _ Hf Fr Hx).
+    - destruct H as [X' [R Fr]]. exists (X ++ X'). rewrite app_assoc. split; [exact R|exact (frame_ext _ _ _ _ _ Hf Fr Hx)].
+    - destruct H as [X' [R Fr]]. exists (X ++ X'). rewrite app_assoc. split; [exact R|exact (frame_ext _ _ _ _ _ Hf Fr Hx)].
+    - destruct H as [X' [V [R Fr]]]. exists (X ++ X'). rewrite app_assoc. split; [exact V|]. split; [exact R|].
+      exact (frame_ext _ _ _ _ _ Hf Fr Hx).
+  Qed.
+
+  (* the head of a list has been evaluated in E, leaving the declarations E1; then the rest *)
+  Lemma seq_l : forall E E1 F sst r x (k : val -> sstate -> res val) (kx : val -> yst -> yres val) (P : cenv -> Prop),
+    corr Sall E E1 F sst r x -> env_ext E E1 -> P E1 ->
+    (forall vs s1 vy y1 X, vrel (F ++ X) vs vy -> Rel3 Sall E1 (F ++ X) s1 y1 -> frame E sst s1 ->
+       fresh_ext E E1 sst /\
+       exists E', env_ext E1 E' /\ P E' /\ corr Sall E1 E' (F ++ X) s1 (k vs s1) (kx vy y1)) ->
+    exists E', env_ext E E' /\ P E' /\ corr Sall E E' F sst (rbind r k) (ybind x kx).
+  Proof.
+    intros E E1 F sst r x k kx P H Hext HP Hk.
+    destruct r as [vs s'|[| |rv] s'|e s'|f s'|]; destruct x as [vy y'|y'|y'|vy y'|k'|f'| |]; cbn [corr rbind ybind] in *;
+      try contradiction;
+      try (exists E1; split; [exact Hext|]; split; [exact HP|]; first [exact I|exact H|destruct e; first [exact I|exact H]]; fail).
+    - destruct H as [X [V [R Fr]]]. destruct (Hk vs s' vy y' X V R Fr) as [Hfx [E' [Hext' [HP' Hc]]]].
+      exists E'. split; [exact (env_ext_trans _ _ _ Hext Hext')|]. split; [exact HP'|].
+      exact (corr_shift_ext E E1 E' F X sst s' _ _ Fr Hfx Hc).
+    - exists E1. split; [exact Hext|]. split; [exact HP|].
+      destruct (k vs s') as [a b|[| |c] b|e b|f b|]; try exact I. destruct e; exact I.
+    - exists E1. split; [exact Hext|]. split; [exact HP|]. destruct e; try contradiction. exact I.
+  Qed.
+
+  Lemma holes_cons : forall E s r, holes_b E (s :: r) -> holes_gen E (fun y => mentions_s y s) /\ holes_b E r.
+  Proof.
+    intros E s r H. split; apply (holes_gen_sub E _ _) with (2 := H); intros y Hm; cbn [mentions_b] in Hm.
+    - exact (orb_false_l _ _ Hm).
+    - exact (orb_false_r' _ _ Hm).
+  Qed.
+
+  Lemma cmax_stmts : forall l lp fa fn st st' c E, f3b lp fa fn l = true -> compile_statements l st = Ok st' ->
+    ctx_ok st c E -> (cmax st <= cmax st')%nat.
+  Proof.
+    intros l lp fa fn st st' c E HF Hc Hctx.
+    destruct (ctx_ok_wfshape st c E Hctx) as [pre [sc [k [outer [cur [W _]]]]]].
+    destruct (shape_stmts l lp fa fn st st' pre sc k outer cur HF Hc W) as [k' [W' Hk]].
+    rewrite (cmax_ltab _ _ _ _ _ _ (proj1 W)), (cmax_ltab _ _ _ _ _ _ (proj1 W')). exact Hk.
+  Qed.
+
+  (* a declaration: the new slot of the current context *)
+  Definition decl_env (E : cenv) (x : text) (cl : positive) (fa : bool) (hole : bool) : cenv :=
+    match ce_mode E with
+    | MTop => mkCE MTop (ce_ds E ++ [(x, cl)]) (ce_dl E) (ce_nf E) (if fa then S (length (ce_ds E)) else ce_L E)
+                   (if hole then length (ce_ds E) :: ce_gh E else ce_gh E) (ce_lh E) (ce_N E)
+    | MFun => mkCE MFun (ce_ds E) (ce_dl E ++ [(x, cl)]) (ce_nf E) (ce_L E) (ce_gh E)
+                   (if hole then length (ce_dl E) :: ce_lh E else ce_lh E) (ce_N E)
+    end.
+
+  Lemma ctx_ok_declare : forall st c E x cl fa hole, ctx_ok st c E ->
+    ctx_ok (set_symbols st (fst (define (c_symbols st) x))) (d_declare c x cl) (decl_env E x cl fa hole) /\
+    cmax (set_symbols st (fst (define (c_symbols st) x))) = S (cmax st) /\
+    (exists sc idx, snd (define (c_symbols st) x) = mkSymbol sc idx /\
+       match ce_mode E with
+       | MTop => sc = SGlobal /\ idx = length (ce_ds E)
+       | MFun => sc = SLocal /\ idx = length (ce_dl E)
+       end).
+  Proof.
+    intros st c E x cl fa hole H. unfold ctx_ok, decl_env in *. destruct (ce_mode E) eqn:Em.
+    - destruct H as [H1 [H2 [H3 [k [outer [cur [H4 [H5 H6]]]]]]]].
+      rewrite H4, define_ltab. cbn [fst snd set_symbols c_symbols ce_mode ce_ds ce_dl].
+      assert (concat (d_local (d_declare c x cl)) = rev (ce_ds E ++ [(x, cl)]) /\ d_global (d_declare c x cl) = None) as [A B].
+      { unfold d_declare. rewrite rev_unit. destruct (d_local c) as [|s0 r0] eqn:El; cbn [d_local d_global concat app].
+        - cbn [concat] in H2. rewrite <- H2. auto.
+        - cbn [concat] in H2. rewrite <- H2. auto. }
+      split; [|split].
+      + split; [exact B|]. split; [exact A|]. split; [exact H3|]. exists (S k), outer, (cur ++ [x]).
+        split; [reflexivity|]. rewrite flat_snoc, map_app, H5. cbn [map fst]. split; [reflexivity|].
+        rewrite app_length, map_length. cbn [length]. rewrite <- (map_length fst), <- H5. lia.
+      + rewrite (cmax_ltab st _ _ _ _ _ H4). apply (cmax_ltab _ [] SGlobal (S k) outer (cur ++ [x])). reflexivity.
+      + exists SGlobal, (length (flat outer cur)). split; [reflexivity|]. rewrite H5, map_length. auto.
+    - destruct H as [g [c0 [mids [k [outer [cur [H1 [H2 [H3 [H4 [H5 [H6 [H7 [H8 H9]]]]]]]]]]]]]].
+      rewrite H5, define_ltab. cbn [fst snd set_symbols c_symbols ce_mode ce_ds ce_dl ce_nf ce_L].
+      assert (concat (d_local (d_declare c x cl)) = rev (ce_dl E ++ [(x, cl)]) /\ d_global (d_declare c x cl) = Some g) as [A B].
+      { unfold d_declare. rewrite rev_unit. destruct (d_local c) as [|s0 r0] eqn:El; cbn [d_local d_global concat app].
+        - cbn [concat] in H2. rewrite <- H2. auto.
+        - cbn [concat] in H2. rewrite <- H2. auto. }
+      split; [|split].
+      + exists g, c0, mids, (S k), outer, (cur ++ [x]). split; [exact B|]. split; [exact A|]. split; [exact H3|].
+        split; [exact H4|]. split; [reflexivity|]. split; [exact H6|].
+        rewrite flat_snoc, map_app, H7. cbn [map fst]. split; [reflexivity|]. split; [exact H8|].
+        rewrite app_length, map_length. cbn [length]. rewrite <- (map_length fst), <- H7. lia.
+      + rewrite (cmax_ltab st _ _ _ _ _ H5). apply (cmax_ltab _ (c0 :: mids) SLocal (S k) outer (cur ++ [x])). reflexivity.
+      + exists SLocal, (length (flat outer cur)). split; [reflexivity|]. rewrite H7, map_length. auto.
+  Qed.
+
+  Lemma flags_decl : forall fa fn E x cl hole, flags_ok fa fn E -> flags_ok fa fn (decl_env E x cl fa hole).
+  Proof.
+    intros fa fn E x cl hole H. unfold flags_ok, decl_env in *. destruct (ce_mode E); cbn [ce_mode ce_L ce_ds].
+    - destruct H as [A B]. split; [exact A|]. intros ->. rewrite app_length. cbn [length]. lia.
+    - exact H.
+  Qed.
+
+  Lemma decl_env_ext : forall E x cl fa hole, (ce_L E <= length (ce_ds E))%nat -> (hole = false) ->
+    env_ext E (decl_env E x cl fa hole) /\ (top0 fa E = false -> ce_L (decl_env E x cl fa hole) = ce_L E).
+  Proof.
+    intros E x cl fa hole HL ->. unfold env_ext, decl_env, top0. destruct (ce_mode E) eqn:Em; cbn [ce_mode ce_nf ce_gh ce_lh ce_N ce_ds ce_dl ce_L].
+    - split.
+      + repeat (split; [reflexivity|]). split; [exists [(x, cl)]; reflexivity|]. split; [reflexivity|]. destruct fa; lia.
+      + intros ->. reflexivity.
+    - split; [|reflexivity]. repeat (split; [reflexivity|]). split; [exists [(x, cl)]; reflexivity|]. auto.
+  Qed.
+
+  Lemma fresh_decl : forall E x sst fa hole, fresh_ext E (decl_env E x (st_next sst) fa hole) sst.
+  Proof.
+    intros E x sst fa hole c Hin. unfold decl_env in Hin. destruct (ce_mode E) eqn:Em; cbn [ce_ds ce_dl] in Hin.
+    - rewrite map_app in Hin. apply in_app_or in Hin. destruct Hin as [Hin|Hin].
+      + rewrite map_app in Hin. apply in_app_or in Hin. destruct Hin as [Hin|[<-|[]]].
+        * left. rewrite map_app. apply in_or_app. left. exact Hin.
+        * right. cbn [snd]. lia.
+      + left. rewrite map_app. apply in_or_app. right. exact Hin.
+    - rewrite app_assoc, map_app in Hin. apply in_app_or in Hin. destruct Hin as [Hin|[<-|[]]].
+      + left. exact Hin.
+      + right. cbn [snd]. lia.
+  Qed.
+
+  (* stel x: the new slot is a hole until the initialiser has been stored *)
+  Lemma Rel3_decl : forall E F sst y x fa st c, Rel3 Sall E F sst y -> ctx_ok st c E ->
+    Rel3 Sall (decl_env E x (st_next sst) fa true) F (snd (new_cell sst)) y /\ frame E sst (snd (new_cell sst)).
+  Proof.
+    intros E F sst y x fa st c HR Hctx. split.
+    - unfold decl_env. unfold ctx_ok in Hctx. destruct (ce_mode E) eqn:Em.
+      + destruct Hctx as [_ [_ [Hdl _]]]. pose proof (r_L _ _ _ _ _ HR) as HL. rewrite Hdl.
+        apply (Rel3_declare_top Sall E F sst y x _ HR Em Hdl); destruct fa; lia.
+      + exact (Rel3_declare_fun Sall E F sst y x HR Em).
+    - unfold new_cell. cbn [snd]. split; [reflexivity|]. split; [cbn [st_next]; lia|auto].
+  Qed.
+
+  Lemma Rel3_fill : forall E F sst y x cl fa v v' sc idx, Rel3 Sall (decl_env E x cl fa true) F sst y ->
+    vrel F v v' ->
+    match ce_mode E with
+    | MTop => sc = SGlobal /\ idx = length (ce_ds E)
+    | MFun => sc = SLocal /\ idx = length (ce_dl E) /\ (idx < ce_N E)%nat
+    end ->
+    Rel3 Sall (decl_env E x cl fa false) F (set_cell cl v sst) (y_set (mkSymbol sc idx) v' y).
+  Proof.
+    intros E F sst y x cl fa v v' sc idx HR Hv Hm. unfold decl_env, y_set in *. cbn [s_scope s_index].
+    destruct (ce_mode E) eqn:Em.
+    - destruct Hm as [-> ->].
+      pose proof (Rel3_set_global Sall _ F sst y (length (ce_ds E)) x cl v v' (ce_gh E) HR) as R.
+      cbn [ce_ds ce_gh] in R. unfold set_gh in R. cbn [ce_mode ce_ds ce_dl ce_nf ce_L ce_lh ce_N] in R. apply R.
+      + rewrite nth_error_app2, Nat.sub_diag by lia. reflexivity.
+      + exact Hv.
+      + intros j Hj. destruct (Nat.eq_dec j (length (ce_ds E))) as [->|Hne]; [left; reflexivity|right].
+        intros [E0|Hin]; [apply Hne; symmetry; exact E0|contradiction].
+      + intros h Hin. right. exact Hin.
+    - destruct Hm as [-> [-> Hlt]]. pose proof (r_N _ _ _ _ _ HR) as HN. cbn [ce_N] in HN.
+      pose proof (Rel3_set_local Sall _ F sst y (length (ce_dl E)) x cl v v' (ce_lh E) HR) as R.
+      cbn [ce_dl ce_lh] in R. unfold set_lh in R. cbn [ce_mode ce_ds ce_dl ce_nf ce_L ce_gh ce_N] in R. apply R.
+      + rewrite nth_error_app2, Nat.sub_diag by lia. reflexivity.
+      + exact Hv.
+      + lia.
+      + intros j Hj. destruct (Nat.eq_dec j (length (ce_dl E))) as [->|Hne]; [left; reflexivity|right].
+        intros [E0|Hin]; [apply Hne; symmetry; exact E0|contradiction].
+      + intros h Hin. right. exact Hin.
+  Qed.
+
+  Lemma frame_fill : forall E sst v s, frame E sst s ->
+    (st_next sst < st_next s)%positive -> frame E sst (set_cell (st_next sst) v s).
+  Proof.
+    intros E sst v s [A [B C]] Hlt. split; [exact A|]. split; [exact B|].
+    intros c Hc Hn. cbn [set_cell st_cells]. rewrite PM.gso by lia. exact (C c Hc Hn).
+  Qed.
+
+  Lemma clo_rel_grow0 : forall ds d L L' gh clo fe, (L <= length ds)%nat -> (L <= L')%nat ->
+    clo_rel ds L gh clo fe -> clo_rel (ds ++ d) L' gh clo fe.
+  Proof.
+    intros ds d L L' gh clo fe H1 H2 H.
+    apply (clo_rel_gh (ds ++ d) L' (length ds :: gh) gh clo fe); [intros h Hin; right; exact Hin|].
+    exact (clo_rel_grow ds d L L' gh clo fe H1 H2 H).
+  Qed.
+
+  (* a declaration bound to a function literal (named function, or stel f = functie ...), top level *)
+  Lemma Rel3_decl_fun_top : forall E F sst y x (fa : bool) clo fe,
+    Rel3 Sall E F sst y -> ce_mode E = MTop -> ce_dl E = [] -> Sall fe ->
+    clo_rel (ce_ds E ++ [(x, st_next sst)]) (if fa then S (length (ce_ds E)) else ce_L E) (ce_gh E) clo fe ->
+    Rel3 Sall (decl_env E x (st_next sst) fa false) (F ++ [fe])
+         (set_cell (st_next sst) (VFun (zlength (st_funs sst)) 0)
+            (mkSt (st_heap sst) (st_cells sst) (Pos.succ (st_next sst)) (st_funs sst ++ [clo]) (st_out sst)))
+         (mkY (set_global_m (length (ce_ds E)) (VFun (fe_ip fe) (fe_n fe)) (y_m y)) (y_loc y) (y_funs y ++ [fe])).
+  Proof.
+    intros E F sst y x fa clo fe [R1 R2 R3 R4 R5 R6 R7 R8 R9 R10 R11 R12 R13 R14] Em Hdl HS HC.
+    unfold decl_env. rewrite Em, Hdl in *. rewrite app_nil_r in R4, R7.
+    set (cl := st_next sst) in *.
+    constructor; cbn [ce_mode ce_ds ce_dl ce_nf ce_L ce_gh ce_lh ce_N set_cell set_global_m st_heap st_cells st_next st_funs
+                      y_m y_loc y_funs m_heap m_gc m_gl]; auto.
+    - rewrite app_length. cbn [length]. destruct fa; lia.
+    - rewrite ?app_nil_r, map_app. cbn [map snd]. apply NoDup_snoc; [exact R4|].
+      intros Hin. specialize (R7 _ Hin). unfold cl in R7. lia.
+    - intros i y0 c Hi Hn. destruct (Nat.lt_ge_cases i (length (ce_ds E))) as [Hlt|Hge].
+      + rewrite nth_error_app1 in Hi by exact Hlt.
+        assert (c <> cl) as Hne.
+        { intros ->. assert (cl < st_next sst)%positive as Hc'.
+          { apply R7. apply in_map_iff. exists (y0, cl). split; [reflexivity|exact (nth_error_In _ _ Hi)]. }
+          unfold cl in Hc'. lia. }
+        unfold get_cell. cbn [set_cell st_cells]. rewrite PM.gso by exact Hne.
+        rewrite nth_set_global_other by lia. apply vrel_mono. exact (R5 i y0 c Hi Hn).
+      + assert (i = length (ce_ds E)) as ->.
+        { assert (i < length (ce_ds E ++ [(x, cl)]))%nat by (apply nth_error_Some; rewrite Hi; discriminate).
+          rewrite app_length in H. cbn [length] in H. lia. }
+        rewrite nth_error_app2, Nat.sub_diag in Hi by lia. cbn [nth_error] in Hi. inversion Hi; subst c.
+        unfold get_cell. cbn [set_cell st_cells]. rewrite PM.gss, nth_set_global_same. cbn [vrel].
+        split; [apply zlength_nonneg|]. exists fe. split; [|reflexivity].
+        unfold zlength. rewrite Nat2Z.id, <- R9, nth_error_app2, Nat.sub_diag by lia. reflexivity.
+    - intros i y0 c Hi. destruct i; discriminate Hi.
+    - intros c Hin. rewrite ?app_nil_r, map_app in Hin. apply in_app_or in Hin. destruct Hin as [Hin|[<-|[]]].
+      + specialize (R7 _ Hin). unfold cl. lia.
+      + cbn [snd]. lia.
+    - intros c Hc. rewrite PM.gso by lia. apply R8. unfold cl in *. lia.
+    - rewrite !app_length, R9. reflexivity.
+    - intros id fe0 Hn. destruct (Nat.lt_ge_cases id (length F)) as [Hlt|Hge].
+      + rewrite nth_error_app1 in Hn by exact Hlt. destruct (R10 id fe0 Hn) as [A [clo0 [B C]]].
+        split; [apply in_or_app; left; exact A|]. exists clo0. split.
+        * rewrite nth_error_app1; [exact B|]. rewrite <- R9. exact Hlt.
+        * apply (clo_rel_grow0 _ _ _ _ _ _ _ R3); [destruct fa; lia|exact C].
+      + rewrite nth_error_app2 in Hn by exact Hge. destruct (id - length F)%nat as [|n] eqn:En; [|destruct n; discriminate Hn].
+        cbn [nth_error] in Hn. inversion Hn; subst fe0. split; [apply in_or_app; right; left; reflexivity|].
+        exists clo. split; [|exact HC]. rewrite nth_error_app2 by lia. replace (id - length (st_funs sst))%nat with O by lia.
+        reflexivity.
+    - intros fe0 Hin. apply in_app_or in Hin. destruct Hin as [Hin|[<-|[]]]; [exact (R11 _ Hin)|exact HS].
+    - intros h Hin. rewrite app_length. cbn [length]. specialize (R12 h Hin). lia.
+  Qed.
+
+  (* the same for both modes: Sem declares the name, builds the closure, stores it *)
+  Lemma decl_fun_step : forall E F sst y fa fn c st x ps body st4,
+    ctx_ok st c E -> flags_ok fa fn E -> fa = true -> Rel3 Sall E F sst y ->
+    c_block_statement body (fun_st3 ps (set_symbols st (fst (define (c_symbols st) x)))) = Ok st4 ->
+    f3b false true true body = true -> holes_gen E (fun y => mentions_b y body) ->
+    (ce_mode E = MFun -> (S (cmax st) <= ce_N E)%nat) ->
+    let st0 := set_symbols st (fst (define (c_symbols st) x)) in
+    let sym := snd (define (c_symbols st) x) in
+    let cl := st_next sst in
+    let c' := d_declare c x cl in
+    let fe := mkFE (code_len (fun_st3 ps st0)) (Z.of_nat (snd (leave_context (c_symbols st4)))) ps body (fun_st3 ps st0) in
+    Sall fe ->
+    let clo := mkClo ps body (match d_global c' with Some g => g | None => d_local c' end) in
+    let v := VFun (zlength (st_funs sst)) 0 in
+    let v' := VFun (fe_ip fe) (fe_n fe) in
+    let sst3 := set_cell cl v (mkSt (st_heap sst) (st_cells sst) (Pos.succ cl) (st_funs sst ++ [clo]) (st_out sst)) in
+    let y3 := y_set sym v' (mkY (y_m y) (y_loc y) (y_funs y ++ [fe])) in
+    Rel3 Sall (decl_env E x cl fa false) (F ++ [fe]) sst3 y3 /\ vrel (F ++ [fe]) v v' /\ frame E sst sst3 /\
+    ctx_ok st0 c' (decl_env E x cl fa false).
+  Proof.
+    intros E F sst y fa fn c st x ps body st4 Hctx Hfl Hfa HR H4 HFb Hh HlocS st0 sym cl c' fe HS clo v v' sst3 y3.
+    destruct (ctx_ok_declare st c E x cl fa false Hctx) as [Hctx' [Hk' [sc [idx [Esym Hsym]]]]].
+    fold st0 c' in Hctx'. fold sym in Esym.
+    assert (vrel (F ++ [fe]) v v') as Hv.
+    { cbn [vrel v]. split; [apply zlength_nonneg|]. exists fe. split; [|reflexivity].
+      unfold zlength. rewrite Nat2Z.id, <- (r_flen _ _ _ _ _ HR), nth_error_app2, Nat.sub_diag by lia. reflexivity. }
+    assert (frame E sst sst3) as Hfr.
+    { unfold sst3. split; [reflexivity|]. split; [cbn [set_cell st_next]; lia|].
+      intros c0 Hc0 _. cbn [set_cell st_cells]. apply PM.gso. unfold cl. lia. }
+    assert (holes_gen (decl_env E x cl fa false) (fun y0 => mentions_b y0 body)) as Hh'.
+    { destruct Hh as [Hg Hl]. unfold decl_env. destruct (ce_mode E) eqn:Em; split; cbn [ce_gh ce_lh ce_ds ce_dl ce_mode ce_nf].
+      - intros h y0 c0 Hin Hn Hm. apply (Hg h y0 c0 Hin); [|intros N; discriminate N].
+        rewrite nth_error_app1 in Hn by exact (r_ghlt _ _ _ _ _ HR h Hin). exact Hn.
+      - exact Hl.
+      - intros h y0 c0 Hin Hn Hm. apply (Hg h y0 c0 Hin Hn). exact Hm.
+      - intros h y0 c0 Hin Hn. apply (Hl h y0 c0 Hin).
+        rewrite nth_error_app1 in Hn by exact (r_lhlt _ _ _ _ _ HR h Hin). exact Hn. }
+    pose proof (fun_clo (decl_env E x cl fa false) fa fn c' st0 ps body st4 Hctx' (flags_decl fa fn E x cl false Hfl) Hfa H4 HFb Hh') as HC.
+    fold fe clo in HC.
+    split; [|split; [exact Hv|split; [exact Hfr|exact Hctx']]].
+    unfold y3, y_set. rewrite Esym. cbn [s_scope s_index].
+    destruct (ce_mode E) eqn:Em.
+    - destruct Hsym as [-> ->].
+      assert (ce_dl E = []) as Hdl by (unfold ctx_ok in Hctx; rewrite Em in Hctx; exact (proj1 (proj2 (proj2 Hctx)))).
+      unfold decl_env in HC. rewrite Em in HC. cbn [ce_ds ce_L ce_gh] in HC.
+      exact (Rel3_decl_fun_top E F sst y x fa clo fe HR Em Hdl HS HC).
+    - destruct Hsym as [-> ->].
+      (* declare, create the closure, store it *)
+      destruct (Rel3_decl E F sst y x fa st c HR Hctx) as [Rd _].
+      assert (clo_rel (ce_ds (decl_env E x cl fa true)) (ce_L (decl_env E x cl fa true)) (ce_gh (decl_env E x cl fa true)) clo fe) as HC'.
+      { unfold decl_env in HC |- *. rewrite Em in HC |- *. exact HC. }
+      pose proof (Rel3_newfun Sall _ F _ y clo fe Rd HS HC') as Rn.
+      unfold new_cell in Rn. cbn [snd st_heap st_cells st_next st_funs st_out] in Rn.
+      pose proof (Rel3_fill E (F ++ [fe]) _ _ x cl fa v v' SLocal (length (ce_dl E)) Rn Hv) as Rf. rewrite Em in Rf.
+      unfold y_set in Rf. cbn [s_scope s_index y_m y_loc y_funs] in Rf. apply Rf.
+      split; [reflexivity|]. split; [reflexivity|].
+      specialize (HlocS eq_refl). unfold ctx_ok in Hctx. rewrite Em in Hctx.
+      destruct Hctx as [g [c0 [mids [k [outer [cur [_ [_ [_ [_ [H5 [_ [H7 [_ H9]]]]]]]]]]]]]].
+      rewrite (cmax_ltab st _ _ _ _ _ H5) in HlocS. rewrite H7, map_length in H9. lia.
   Qed.
 End SemSim.
